@@ -119,12 +119,15 @@ func verifPathString(p expressions.Path) string {
 // stub schemas
 
 type vScope struct {
+	seen     any  // the document the schema was last asked to judge
+	sawInput bool
 	schema.Scope
 	invalid  bool
 	serFails bool
 }
 
 func (s *vScope) Unserialize(data any) (any, error) {
+	s.seen, s.sawInput = data, true
 	if s.invalid {
 		return nil, &verifrt.Err{Msg: "invalid input"}
 	}
@@ -429,7 +432,13 @@ func (s *vStep) change(prev, out string, data any, next string, st step.RunningS
 	}
 }
 
-func verifAtomicFinished(s *vStep) { s.finishedSeq = s.run.seq }
+// A step counts as finished (for "evaluated only after its source has finished one way or the other") from
+// the moment its fate is sealed: its first end-of-life declaration, or its completion.
+func verifAtomicFinished(s *vStep) {
+	if s.finishedSeq == 0 {
+		s.finishedSeq = s.run.seq
+	}
+}
 
 func (s *vStep) complete(stage, out string, data any) {
 	verifAtomicSet(s, stage, step.RunningStepStateFinished, "")
@@ -439,6 +448,7 @@ func (s *vStep) complete(stage, out string, data any) {
 }
 
 func (s *vStep) fail(stages ...string) {
+	verifAtomicFinished(s) // all declarations of an abstract step belong to its ending
 	for _, st := range stages {
 		s.h.OnStepStageFailure(s, st, &s.wg, &verifrt.Err{Msg: "stage will not happen"})
 	}
@@ -487,7 +497,8 @@ func (s *vStep) closedResult() any {
 func verifAtomicStop(s *vStep) bool   { return s.stopReq }
 func verifAtomicClosed(s *vStep) bool { return s.closeReq }
 
-// life is the goroutine of an abstract step; every branch is a path of contract L.
+// life is the goroutine of an abstract step; every branch is a path of contract L (the stages that will not
+// happen are declared before the completion is reported, as the provider monitors of C12/C13 demand).
 func (s *vStep) life() {
 	defer close(s.finished)
 	verifAtomicSet(s, "deploy", step.RunningStepStateRunning, "")
@@ -495,18 +506,18 @@ func (s *vStep) life() {
 	if _, ok := s.await("deploy"); !ok {
 		s.fail("deploy")
 		verifAtomicSet(s, "closed", step.RunningStepStateRunning, "")
-		s.complete("closed", "result", s.closedResult())
 		s.fail("enabling", "disabled", "starting", "running", "outputs")
 		s.fail("deploy_failed", "crashed")
+		s.complete("closed", "result", s.closedResult())
 		return
 	}
 	verifAtomicCount(s.run, 1, 0)
 	if s.pick("deploy", 2) == 1 {
 		s.change("deploy", "", nil, "deploy_failed", step.RunningStepStateRunning)
-		s.complete("deploy_failed", "error", map[any]any{"error": "deployment failed"})
 		s.fail("enabling", "disabled", "starting", "running", "outputs")
 		s.fail("closed")
 		s.fail("crashed")
+		s.complete("deploy_failed", "error", map[any]any{"error": "deployment failed"})
 		return
 	}
 	s.change("deploy", "", nil, "enabling", step.RunningStepStateWaitingForInput)
@@ -514,35 +525,35 @@ func (s *vStep) life() {
 	if !ok {
 		s.fail("enabling")
 		verifAtomicSet(s, "closed", step.RunningStepStateRunning, "")
-		s.complete("closed", "result", s.closedResult())
 		s.fail("starting", "running", "outputs")
 		s.fail("disabled", "deploy_failed", "crashed")
+		s.complete("closed", "result", s.closedResult())
 		return
 	}
 	if !(in["enabled"] == nil || in["enabled"] == true) {
 		s.change("enabling", "resolved", map[any]any{"enabled": false}, "disabled", step.RunningStepStateRunning)
-		s.complete("disabled", "output", map[any]any{"message": "disabled"})
 		s.fail("starting", "running", "outputs")
 		s.fail("closed")
 		s.fail("deploy_failed", "crashed")
+		s.complete("disabled", "output", map[any]any{"message": "disabled"})
 		return
 	}
 	s.change("enabling", "resolved", map[any]any{"enabled": true}, "starting", step.RunningStepStateWaitingForInput)
 	if _, ok = s.await("starting"); !ok {
 		s.fail("starting")
 		verifAtomicSet(s, "closed", step.RunningStepStateRunning, "")
-		s.complete("closed", "result", s.closedResult())
 		s.fail("running", "outputs")
 		s.fail("disabled", "deploy_failed", "crashed")
+		s.complete("closed", "result", s.closedResult())
 		return
 	}
 	if s.pick("start", 2) == 1 {
 		s.fail("starting")
 		verifAtomicSet(s, "crashed", step.RunningStepStateRunning, "")
-		s.complete("crashed", "error", map[any]any{"output": "start failed"})
 		s.fail("running", "outputs")
 		s.fail("closed")
 		s.fail("deploy_failed", "disabled")
+		s.complete("crashed", "error", map[any]any{"output": "start failed"})
 		return
 	}
 	verifAtomicExec(s, true)
@@ -560,22 +571,22 @@ func (s *vStep) life() {
 		s.change("running", "", nil, "outputs", step.RunningStepStateRunning)
 		if s.outcome["undeclared"] == 1 {
 			// a misbehaving step: it ends with an output id its lifecycle does not declare
-			s.complete("outputs", "surprise", map[any]any{"v": verifrt.NondetVal("out." + s.id)})
 			s.fail("deploy_failed", "disabled", "crashed", "closed")
+			s.complete("outputs", "surprise", map[any]any{"v": verifrt.NondetVal("out." + s.id)})
 			return
 		}
-		s.complete("outputs", "success", map[any]any{"v": verifrt.NondetVal("out." + s.id), "flag": verifrt.NondetBool("flag." + s.id)})
 		s.fail("deploy_failed", "disabled", "crashed", "closed")
+		s.complete("outputs", "success", map[any]any{"v": verifrt.NondetVal("out." + s.id), "flag": verifrt.NondetBool("flag." + s.id)})
 	case 1:
 		s.change("running", "", nil, "outputs", step.RunningStepStateRunning)
-		s.complete("outputs", "error", map[any]any{"v": verifrt.NondetVal("err." + s.id)})
 		s.fail("deploy_failed", "disabled", "crashed", "closed")
+		s.complete("outputs", "error", map[any]any{"v": verifrt.NondetVal("err." + s.id)})
 	default:
 		s.change("running", "", nil, "crashed", step.RunningStepStateRunning)
-		s.complete("crashed", "error", map[any]any{"output": "crashed"})
 		s.fail("outputs")
 		s.fail("closed")
 		s.fail("deploy_failed", "disabled")
+		s.complete("crashed", "error", map[any]any{"output": "crashed"})
 	}
 }
 
